@@ -67,6 +67,14 @@ func vTransOK(t pr.SDimensions) bool {
 //@   requires forall(i, 0, len(trans), len(trans[i].Dimensions) >= 1 && (trans[i].String != "rotate" ==> len(trans[i].Dimensions) >= 2) && (trans[i].String == "matrix" ==> len(trans[i].Dimensions) >= 6))
 //@   requires forall(i, 0, len(trans), trans[i].String == "translate" ==> (trans[i].Dimensions[0].Unit == pr.Px || trans[i].Dimensions[0].Unit == pr.Perc) && (trans[i].Dimensions[1].Unit == pr.Px || trans[i].Dimensions[1].Unit == pr.Perc))
 //@   requires (box.Style.GetTransformOrigin()[0].Unit == pr.Px || box.Style.GetTransformOrigin()[0].Unit == pr.Perc) && (box.Style.GetTransformOrigin()[1].Unit == pr.Px || box.Style.GetTransformOrigin()[1].Unit == pr.Perc)
+// transform-origin: the horizontal offset is a length or a percentage of the border box WIDTH, the vertical one
+// of its HEIGHT, both counted from the top left corner of the border box (CSS Transforms 1 §8)
+//@   assert after borderWidth#1: borderWidth == box.BorderWidth()
+//@   assert after borderHeight#1: borderHeight == box.BorderHeight()
+//@   assert after offsetX#1: offsetX == ite(or[0].Unit == pr.Perc, or[0].Value * borderWidth / 100, or[0].Value)
+//@   assert after offsetY#1: offsetY == ite(or[1].Unit == pr.Perc, or[1].Value * borderHeight / 100, or[1].Value)
+//@   assert after originX#1: originX == box.BorderBoxX() + offsetX && or == box.Style.GetTransformOrigin()
+//@   assert after originY#1: originY == box.BorderBoxY() + offsetY
 //@   call RightMultBy#1 assert arg1 == vSpecMat(name, args, borderWidth, borderHeight)
 //@   call Translate#2 assert arg1 == -originX && arg2 == -originY
 //@   call New#1 assert arg0 == 1 && arg1 == 0 && arg2 == 0 && arg3 == 1 && arg4 == originX && arg5 == originY
